@@ -14,15 +14,21 @@
   were attached); the STUN agent's transaction table is the `valid` flag of those records, and the
   validation outcome of an answer is derived from it as stun_agent_validate does for the answers
   the harness crafts (success answers carry MESSAGE-INTEGRITY iff the request did).
-  Not modelled: GOOGLE / MSN / OC2007 encodings, reliable base (RFC 4571 re-framing), timers
-  (retransmission, permission / binding refresh and expiry).
+  Request timers (stun/usages/timer.c via Nice.Model.Timer: 500 ms, 3 transmissions) drive the
+  retransmissions and the time-out of CreatePermission (permission assumed, held data flushed) and
+  ChannelBind (binding dropped); `now` is the virtual clock in microseconds.
+  GOOGLE mode: the Send request encoding and pass-through receive are modelled; the Send response
+  (channel lock) and the old-style Data indication are not.
+  Not modelled: MSN / OC2007 encodings (HMAC over the long/short-term key), reliable base (RFC 4571 re-framing), the
+  second-granularity timers (permission / binding refresh and expiry after 240 / 540 s).
 -/
 import Nice.Model.SockBase
+import Nice.Model.Timer
 namespace Nice.Turn
 open Nice.Sock
 
 inductive Compat where
-  | draft9 | rfc5766
+  | draft9 | rfc5766 | google
   deriving DecidableEq, Repr
 
 structure PeerAddr where
@@ -42,17 +48,21 @@ structure Req where
   chan  : Nat := 0
   auth  : Bool          -- USERNAME / REALM / NONCE / MESSAGE-INTEGRITY attached
   valid : Bool := true  -- still in the STUN agent's table of sent transactions
+  timer : Nice.Timer.Timer := { dlSec := 0, dlUsec := 0, delay := 0, retrans := 0, maxRetrans := 0 }
   deriving DecidableEq, Repr
 
 inductive Down where
   | raw (b : Bytes)
   | cp (seq peer : Nat) (auth : Bool)
   | cb (seq chan peer : Nat) (auth : Bool)
+  | rcp (seq : Nat)      -- retransmission of the seq-th CreatePermission request
+  | rcb (seq : Nat)
   deriving DecidableEq, Repr
 
 structure St where
   compat    : Compat
   peers     : List PeerAddr                      -- the peer table (index = peer id)
+  username  : Bytes := [117, 115, 101, 114]       -- "user"
   channels  : List (Nat × Nat) := []              -- (peer, channel), in binding order
   cur       : Option (Nat × Nat) := none          -- current_binding
   curMsg    : Option Nat := none                  -- seq of current_binding_msg
@@ -64,6 +74,9 @@ structure St where
   cached    : Bool := false                       -- realm + nonce cached
   cpReqs    : List Req := []
   cbReqs    : List Req := []
+  now       : Nat := 0                            -- virtual monotonic clock, microseconds
+  cbSrc     : Option Nat := none                  -- tick_source_channel_bind: expiry (us)
+  cpSrc     : Option Nat := none                  -- tick_source_create_permission: expiry (us)
   fault     : Bool := false
   deriving Repr, DecidableEq
 
@@ -98,6 +111,22 @@ def sendIndication (p : PeerAddr) (data txid : Bytes) : Option Bytes :=
   if afterAddr + 4 + data.length > STUN_MAX_MESSAGE_SIZE then none
   else some ([0x00, 0x16] ++ be16b body.length ++ STUN_MAGIC_COOKIE ++ txid ++ body)
 
+/-- an attribute as the RFC 3489 compatible agent writes it: the value is zero-padded to a multiple of
+    4 and the length field COUNTS the padding (stunmessage.c: "for compatibility with old RFC3489") -/
+def attr3489 (type : Nat) (value : Bytes) : Bytes :=
+  let padded := value ++ List.replicate ((4 - value.length % 4) % 4) 0
+  be16b type ++ be16b padded.length ++ padded
+
+/-- GOOGLE mode, no channel locked: `stun_agent_init_request (STUN_SEND)` + MAGIC-COOKIE + USERNAME +
+    DESTINATION-ADDRESS (+ OPTIONS = 1 when the peer is the one being locked) + DATA; 16-byte transaction
+    id, no MESSAGE-INTEGRITY (the GOOGLE socket has no password) -/
+def sendRequestGoogle (user : Bytes) (p : PeerAddr) (lock : Bool) (data txid16 : Bytes) : Option Bytes :=
+  let body := attr3489 0x000f [0x72, 0xc6, 0x4b, 0xc6] ++ (if user.isEmpty then [] else attr3489 0x0006 user) ++
+    attr3489 0x0011 ([0, if p.ipv6 then 2 else 1] ++ be16b p.port ++ p.addr) ++
+    (if lock then attr3489 0x8001 [0, 0, 0, 1] else []) ++ attr3489 0x0013 data
+  if 20 + body.length > STUN_MAX_MESSAGE_SIZE then none
+  else some ([0x00, 0x04] ++ be16b body.length ++ txid16 ++ body)
+
 /-- ChannelData: channel, (uint16) length, payload (no padding over UDP) -/
 def channelData (chan : Nat) (data : Bytes) : Bytes := be16b chan ++ be16b (data.length % 65536) ++ data
 
@@ -110,14 +139,6 @@ def enqueue (q : List (Nat × List (Bytes × Bool))) (peer : Nat) (m : Bytes) (r
 /-- `_socket_send_wrapped (base, server, …, reliable)` on a UDP base: reliable sends are refused -/
 def baseSend (m : Bytes) (rel : Bool) : Int × List Down := if rel then (-1, []) else (1, [.raw m])
 
-/-- `priv_send_create_permission`: returns (sent?, new state, output) -/
-def sendCreatePermission (s : St) (peer : Nat) : Bool × St × List Down :=
-  let s := if s.sentPerms.contains peer then s else { s with sentPerms := s.sentPerms ++ [peer] }
-  let seq := s.cpReqs.length
-  -- reliable attempt fails on UDP, the unreliable retry goes out
-  (true, { s with cpReqs := s.cpReqs ++ [{ seq := seq, peer := peer, auth := s.cached }], pendPerms := s.pendPerms ++ [seq] },
-   [.cp seq peer s.cached])
-
 /-- `socket_dequeue_all_data` -/
 def dequeueAll (s : St) (peer : Nat) : St × List Down :=
   match s.queues.find? (·.1 == peer) with
@@ -125,33 +146,44 @@ def dequeueAll (s : St) (peer : Nat) : St × List Down :=
   | some (_, items) =>
     ({ s with queues := s.queues.filter (·.1 != peer) }, (items.map fun (m, rel) => (baseSend m rel).2).flatten)
 
-/-! ### outgoing wrap: `socket_send_message` -/
+def markUsed (rs : List Req) (seq : Nat) : List Req := rs.map fun r => if r.seq == seq then { r with valid := false } else r
 
-def sendMessage (s : St) (peer : Nat) (bufs : List Bytes) (rel : Bool) (txid : Bytes := List.replicate 12 0) : Int × St × List Down :=
-  let data := bufs.flatten
-  match s.peers[peer]? with
-  | none => (-1, s, [])
-  | some pa =>
-    let wrapped : Option Bytes :=
-      match s.channels.find? (·.1 == peer) with
-      | some (_, chan) => if data.length + 4 ≤ STUN_MAX_MESSAGE_SIZE then some (channelData chan data) else none
-      | none => sendIndication pa data txid
-    match wrapped with
-    | none => (-1, s, [])
-    | some m =>
-      if s.compat == .rfc5766 && !s.perms.contains peer then
-        -- no permission yet: ask for one (once) and hold the data
-        let (ok, s, d) := if s.sentPerms.contains peer then (true, s, []) else sendCreatePermission s peer
-        if !ok then (-1, s, d)
-        else ((m.length : Nat), { s with queues := enqueue s.queues peer m rel }, d)
+
+/-! ### request timers and the two tick sources -/
+
+def setTimer (rs : List Req) (seq : Nat) (t : Nice.Timer.Timer) : List Req :=
+  rs.map fun r => if r.seq == seq then { r with timer := t } else r
+
+/-- the CreatePermission request `seq` timed out: the permission is assumed, held data goes out -/
+def cpTimeout (s : St) (seq peer : Nat) : St × List Down :=
+  let s := { s with cpReqs := markUsed s.cpReqs seq, sentPerms := s.sentPerms.filter (· != peer), pendPerms := s.pendPerms.filter (· != seq), perms := s.perms ++ [peer] }
+  dequeueAll s peer
+
+/-- the pending-permission loop of `priv_schedule_tick`: requests whose timer has run out are
+    retransmitted or timed out (`priv_retransmissions_create_permission_tick_unlocked`), the others
+    give the minimum remaining time.  Returns the new state, the output and that minimum (ms). -/
+def tickCps : List Nat → St → List Down → Option Nat → St × List Down × Option Nat
+  | [], s, d, m => (s, d, m)
+  | seq :: rest, s, d, m =>
+    match s.cpReqs.find? (·.seq == seq) with
+    | none => tickCps rest s d m
+    | some r =>
+      let rem := (Nice.Timer.remainder r.timer s.now).toNat
+      if rem != 0 then tickCps rest s d (some (match m with | some x => min x rem | none => rem))
       else
-        let (r, d) := baseSend m rel
-        ((if r == 1 then (m.length : Int) else r), s, d)
+        match Nice.Timer.refresh r.timer s.now with
+        | (_, .timeout) => let (s, d') := cpTimeout s seq r.peer; tickCps rest s (d ++ d') m
+        | (t, .retransmit) =>
+          -- the list scan resumes AT the refreshed element: its new remaining time counts for the minimum
+          let rem' := (Nice.Timer.remainder t s.now).toNat
+          tickCps rest { s with cpReqs := setTimer s.cpReqs seq t } (d ++ [.rcp seq])
+            (if rem' != 0 then some (match m with | some x => min x rem' | none => rem') else m)
+        | (_, .success) => tickCps rest s d m
 
-/-- `socket_send_messages` / `_reliable` with one message -/
-def send (s : St) (peer : Nat) (bufs : List Bytes) (rel : Bool) : Out × St :=
-  let (len, s, d) := sendMessage s peer bufs rel
-  ({ ret := if len < 0 then -1 else if len == 0 then 0 else 1, down := d }, s)
+/-- second half of `priv_schedule_tick`: one timeout source for the smallest remaining time -/
+def scheduleCp (s : St) : St × List Down :=
+  let (s, d, m) := tickCps s.pendPerms s [] none
+  ({ s with cpSrc := m.map fun ms => s.now + ms * 1000 }, d)
 
 /-! ### channel binding -/
 
@@ -162,15 +194,19 @@ def allocChannel (chans : List Nat) : Nat → List Nat → Nat → Nat
   | _ + 1, [], ch => ch
   | fuel + 1, c :: rest, ch => if ch == c then allocChannel chans fuel (chans.drop 1) (ch + 1) else allocChannel chans fuel rest ch
 
-/-- `priv_send_channel_bind` + `priv_send_turn_message` -/
+/-- `priv_send_channel_bind` + `priv_send_turn_message` (which ends in `priv_schedule_tick`: the
+    fresh request arms the channel-bind tick source) -/
 def sendChannelBind (s : St) (chan peer : Nat) : St × List Down :=
   let seq := s.cbReqs.length
-  ({ s with cbReqs := s.cbReqs ++ [{ seq := seq, peer := peer, chan := chan, auth := s.cached }], curMsg := some seq },
-   [.cb seq chan peer s.cached])
+  let t := Nice.Timer.start s.now 500 3
+  let s := { s with cbReqs := s.cbReqs ++ [{ seq := seq, peer := peer, chan := chan, auth := s.cached, timer := t }], curMsg := some seq, cbSrc := some (s.now + (Nice.Timer.remainder t s.now).toNat * 1000) }
+  let (s, d) := scheduleCp s
+  (s, [.cb seq chan peer s.cached] ++ d)
 
 /-- `priv_add_channel_binding` -/
 def addChannelBinding (s : St) (peer : Nat) : Bool × St × List Down :=
   if s.cur.isSome then (false, { s with pendB := s.pendB ++ [peer] }, [])
+  else if s.compat == .google then (true, { s with cur := some (peer, 0) }, [])    -- locked by the next Send response
   else
     let chans := s.channels.map (·.2)
     let ch := allocChannel chans (chans.length * chans.length + chans.length + 1) chans 0x4000
@@ -189,6 +225,87 @@ def processPending : Nat → St → List Down → St × List Down
       let (ret, s, d') := addChannelBinding { s with pendB := rest } peer
       -- the element processed is removed after the call (it may have been re-appended at the end)
       if ret then (s, d ++ d') else processPending fuel s (d ++ d')
+
+/-- `priv_retransmissions_tick_unlocked`: the outstanding ChannelBind request, when its timer has run
+    out.  Returns the `ret` flag (TRUE = still running). -/
+def tickCbUnlocked (s : St) : St × List Down × Bool :=
+  match s.curMsg with
+  | none => (s, [], false)
+  | some seq =>
+    match s.cbReqs.find? (·.seq == seq) with
+    | none => (s, [], false)
+    | some r =>
+      match Nice.Timer.refresh r.timer s.now with
+      | (_, .timeout) =>
+        -- forget the transaction, drop the binding, start the next pending one
+        let s := { s with cbReqs := markUsed s.cbReqs seq, cur := none, curMsg := none }
+        let (s, d) := processPending (s.pendB.length + 1) s []
+        (s, d, false)
+      | (t, .retransmit) =>
+        let s := { s with cbReqs := setTimer s.cbReqs seq t }
+        -- `if (ret) priv_schedule_tick (priv)`: the request's new timer is armed
+        let s := { s with cbSrc := some (s.now + (Nice.Timer.remainder t s.now).toNat * 1000) }
+        let (s, d) := scheduleCp s
+        (s, [.rcb seq] ++ d, true)
+      | (_, .success) =>
+        let s := { s with cbSrc := some (s.now + (Nice.Timer.remainder r.timer s.now).toNat * 1000) }
+        let (s, d) := scheduleCp s
+        (s, d, true)
+
+/-- `priv_schedule_tick` -/
+def scheduleTick (s : St) : St × List Down :=
+  let s := { s with cbSrc := none }
+  let (s, d1) : St × List Down :=
+    match s.curMsg with
+    | none => (s, [])
+    | some seq =>
+      match s.cbReqs.find? (·.seq == seq) with
+      | none => (s, [])
+      | some r =>
+        let rem := (Nice.Timer.remainder r.timer s.now).toNat
+        if rem > 0 then ({ s with cbSrc := some (s.now + rem * 1000) }, [])
+        else let (s, d, _) := tickCbUnlocked s; (s, d)
+  let (s, d2) := scheduleCp s
+  (s, d1 ++ d2)
+
+/-- `priv_send_create_permission`: returns (sent?, new state, output) -/
+def sendCreatePermission (s : St) (peer : Nat) : Bool × St × List Down :=
+  let s := if s.sentPerms.contains peer then s else { s with sentPerms := s.sentPerms ++ [peer] }
+  let seq := s.cpReqs.length
+  -- the reliable attempt fails on UDP, the unreliable retry goes out; then `priv_schedule_tick`
+  let s := { s with cpReqs := s.cpReqs ++ [{ seq := seq, peer := peer, auth := s.cached, timer := Nice.Timer.start s.now 500 3 }], pendPerms := s.pendPerms ++ [seq] }
+  let (s, d) := scheduleTick s
+  (true, s, [.cp seq peer s.cached] ++ d)
+
+/-! ### outgoing wrap: `socket_send_message` -/
+
+def sendMessage (s : St) (peer : Nat) (bufs : List Bytes) (rel : Bool) (txid : Bytes := List.replicate 12 0) : Int × St × List Down :=
+  let data := bufs.flatten
+  match s.peers[peer]? with
+  | none => (-1, s, [])
+  | some pa =>
+    let wrapped : Option Bytes :=
+      match s.compat, s.channels.find? (·.1 == peer) with
+      | .google, some _ => some data          -- locked channel: the payload goes to the relay as it is
+      | .google, none => sendRequestGoogle s.username pa (match s.cur with | some (p, _) => p == peer | none => false) data (List.replicate 16 0)
+      | _, some (_, chan) => if data.length + 4 ≤ STUN_MAX_MESSAGE_SIZE then some (channelData chan data) else none
+      | _, none => sendIndication pa data txid
+    match wrapped with
+    | none => (-1, s, [])
+    | some m =>
+      if s.compat == .rfc5766 && !s.perms.contains peer then
+        -- no permission yet: ask for one (once) and hold the data
+        let (ok, s, d) := if s.sentPerms.contains peer then (true, s, []) else sendCreatePermission s peer
+        if !ok then (-1, s, d)
+        else ((m.length : Nat), { s with queues := enqueue s.queues peer m rel }, d)
+      else
+        let (r, d) := baseSend m rel
+        ((if r == 1 then (m.length : Int) else r), s, d)
+
+/-- `socket_send_messages` / `_reliable` with one message -/
+def send (s : St) (peer : Nat) (bufs : List Bytes) (rel : Bool) : Out × St :=
+  let (len, s, d) := sendMessage s peer bufs rel
+  ({ ret := if len < 0 then -1 else if len == 0 then 0 else 1, down := d }, s)
 
 def setPeer (s : St) (peer : Nat) : Out × St :=
   let (ret, s, d) := addChannelBinding s peer
@@ -224,8 +341,6 @@ def validates (r : Req) (c : Code) : Bool :=
     | .e400 | .e401 | .e438 => true
     | .e403 => false)
 
-def markUsed (rs : List Req) (seq : Nat) : List Req := rs.map fun r => if r.seq == seq then { r with valid := false } else r
-
 /-- "unauthorized, try again with realm and nonce": 438, or 401 unless the realm we sent is the one
     received (the crafted answers always carry realm "realm", requests carry it iff authenticated) -/
 def retryWithAuth (r : Req) (c : Code) : Bool := c == .e438 || (c == .e401 && !r.auth)
@@ -235,7 +350,12 @@ def retryWithAuth (r : Req) (c : Code) : Bool := c == .e438 || (c == .e401 && !r
     (none = the server).  Every read of the packet is bounds-checked (`fault`). -/
 def unwrapData (s : St) (b : Bytes) (src : Option Nat) : (Option Nat × Bytes) × St :=
   -- `recv_len >= sizeof (uint32_t) && b->channel == ntohs (recv_buf.u16[0])`: shorter packets match no binding
-  if s.channels.isEmpty || b.length < 4 then ((src, b), s)
+  if s.compat == .google then
+    -- old modes: everything that is not a TURN message comes from the (single) locked peer, unframed
+    match s.channels with
+    | [] => ((src, b), s)
+    | (peer, _) :: _ => ((some peer, b), s)
+  else if s.channels.isEmpty || b.length < 4 then ((src, b), s)
   else
     let chan := be16 (b.getD 0 0) (b.getD 1 0)
     match s.channels.find? (·.2 == chan) with
@@ -332,5 +452,28 @@ def replyCb (s : St) (seq : Nat) (c : Code) : Out × St :=
           let s := { s with curMsg := none, channels := match s.cur with | some b => s.channels ++ [b] | none => s.channels, cur := none }
           let (s, d) := processPending (s.pendB.length + 1) s []
           ({ ret := 1, up := [(none, [])], down := d }, s)
+
+
+/-! ### the clock -/
+
+/-- the virtual clock advances by `ms` milliseconds and the socket's main context runs: the
+    channel-bind tick source (`priv_retransmissions_tick`: when the tick reports "nothing left" the
+    source — also one just created for the next pending binding — is destroyed) and the
+    create-permission tick source (`priv_retransmissions_create_permission_tick` = `priv_schedule_tick`) -/
+def advance (s : St) (ms : Nat) : Out × St :=
+  let s := { s with now := s.now + ms * 1000 }
+  let (s, d1) : St × List Down :=
+    match s.cbSrc with
+    | some e =>
+      if e ≤ s.now then
+        let (s, d, ret) := tickCbUnlocked s
+        (if ret then s else { s with cbSrc := none }, d)
+      else (s, [])
+    | none => (s, [])
+  let (s, d2) : St × List Down :=
+    match s.cpSrc with
+    | some e => if e ≤ s.now then scheduleTick s else (s, [])
+    | none => (s, [])
+  ({ ret := 0, down := d1 ++ d2 }, s)
 
 end Nice.Turn
